@@ -59,8 +59,14 @@ class Interp:
         if usable and qualname in eng.funcs and _decorators(eng.funcs[qualname], qualname):
             usable = False      # a memoised function is not its contract: run the body under the memo rule
         if usable:
-            self.ctx.cover.add(("call", qualname))
-            return con.call(self, args, kwargs)
+            from .contract import ContractDetached
+            try:
+                r = con.call(self, args, kwargs)
+                self.ctx.cover.add(("call", qualname))
+                return r
+            except ContractDetached:
+                # signature changed: use the real body instead of the contract
+                eng.inlined.add(qualname + " (contract detached: signature changed)")
         if qualname not in eng.funcs:
             raise Undecided(f"no source for {qualname}")
         if con is not None:
